@@ -8,6 +8,8 @@
 //	       min / max / max(a,-b) of their operands' values, Translate against f(p - t)
 //	lip    a pair p, q: |f p - f q| <= |p - q| (1 + 1e-9)   (Coq and harness)
 //	exact  |f p| against a brute-force nearest-point search on the surface (sphere, box, capsule, plane)
+//	seq    constructor side effects: Union / Intersect / Subtract / Translate called in every order on ONE shared
+//	       operand slice, then every constructed field and every operand re-evaluated against the original shapes
 //	degenerate-*  Line(a,a,r) and RoundedCone with one end sphere inside the other: separate counted streams
 //	       with their own FailKey (they are inside the property's quantifier, see notes/C19.md)
 package main
@@ -444,6 +446,11 @@ func main() {
 			if json.Unmarshal(in.Raw, &d) == nil {
 				h.addExact(d)
 			}
+		case "seq":
+			var d seqDesc
+			if json.Unmarshal(in.Raw, &d) == nil {
+				h.addSeq(d)
+			}
 		default:
 			fmt.Fprintln(os.Stderr, "unknown case kind", in.Kind)
 		}
@@ -491,6 +498,24 @@ func main() {
 		t := hx.Pick(r, []string{"sphere", "box", "line", "plane"})
 		s := genPrimitive(r, t)
 		h.addExact(evalDesc{s, genPointNear(r, s), false})
+	}
+	// constructor side effects / aliasing: operator constructors on one shared caller-owned slice, in every order
+	for _, d := range fixedSeqs() {
+		h.addSeq(d)
+	}
+	for i := 0; i < n/10+4; i++ {
+		shapes, order, off := genSeq(r)
+		u := Shape{T: "union", Sub: shapes}
+		for k := 0; k < 5; k++ {
+			var p V3
+			if k < 2 { // lattice around the first operand
+				c := shapes[0].A
+				p = c.add(V3{float64(r.Range(-4, 4)) / 4, float64(r.Range(-4, 4)) / 4, float64(r.Range(-4, 4)) / 4})
+			} else {
+				p = genPointNear(r, Shape{T: hx.Pick(r, []string{"union", "intersect"}), Sub: u.Sub})
+			}
+			h.addSeq(seqDesc{shapes, order, off, p})
+		}
 	}
 	// degenerate parameter regions: separate streams
 	for i := 0; i < 6; i++ {
